@@ -504,70 +504,4 @@ Proof.
       unfold walkDynamicChildArrayABIBytes_rep. rewrite loop_elems_nat, loop_nat_list, Hn.
       destruct (embedded_head_tail _ _ _ He) as [Hh Ht].
       rewrite head_tail_length in Hsz.
-      rewrite (walk_list_ok block _ _ _ Hok (hs + o) (hs + o) (hlen (array_items (ty_of ch) vs)));
-        [reflexivity|apply hlen_nonneg|lia|exact Hh|exact Ht].
-    + intros hs hp He. rewrite dec_fixed_unfold. cbv zeta. rewrite Hdyn.
-      unfold decodeABIFixedArrayBytes.
-      replace (len <? 0) with false by (symmetry; apply Z.ltb_ge; lia).
-      rewrite loop_elems_nat, loop_nat_list, Hn.
-      pose proof (array_static_all (ty_of ch) vs Ed) as Hst.
-      rewrite head_tail_static in He by exact Hst.
-      rewrite (walk_list_static block _ _ _ Hok Hst hs hp He). cbn [bind].
-      rewrite head_tail_length, (tails_static_tlen _ Hst), Z.add_0_r. reflexivity.
-  - (* T[] *)
-    specialize (IH (good_dyn _ _ Hg)).
-    intros v Hwt [Hsz Hcnt].
-    cbn [ty_of] in *. destruct v as [| |vs]; cbn [well_typed] in Hwt; try discriminate.
-    cbn [enc] in *. fold (array_items (ty_of ch) vs) in *.
-    destruct (counts_list _ Hcnt) as [Hcl Hcs].
-    rewrite zlen_app, zlen_word in Hsz.
-    pose proof (all_ok_array block ch IH vs Hwt (items_bound _ ltac:(lia)) Hcs) as Hok.
-    change (cv_of (TCDynArr ch k) (VList vs)) with (CV (Some (TCDynArr ch k)) (map (cv_of ch) vs) GNil).
-    cbn [dynamic elem_ok]. intros hs hp o Ho Hw He.
-    rewrite dec_dyn_unfold. rewrite (decodeABILength_word _ _ _ Hw Ho). cbn [bind].
-    unfold decodeABIDynamicArrayBytes.
-    destruct (embedded_app _ _ _ _ He) as [He1 He2]. rewrite zlen_word in He2.
-    rewrite (decodeABILength_word _ _ _ He1) by lia. cbn [bind].
-    destruct (embedded_head_tail _ _ _ He2) as [Hh Ht].
-    pose proof (embedded_bound _ _ _ He2) as Hbd. rewrite head_tail_length in Hbd, Hsz.
-    pose proof (tlen_nonneg (array_items (ty_of ch) vs)) as Htn.
-    (* the count guard does not fire *)
-    assert (Hguard : (Z.of_nat (length vs) >? 0) && occupiesHeadBytes ch &&
-                     ((Z.of_nat (length vs) - 1) * 32 >=? zlen block - (hs + o + 32)) = false).
-    { destruct (occupiesHeadBytes ch) eqn:Eo; [|rewrite andb_false_r; reflexivity].
-      destruct (Z.of_nat (length vs) >? 0) eqn:Ez; [|reflexivity]. cbn [andb].
-      apply Z.geb_leb, Z.leb_gt.
-      assert (32 * Z.of_nat (length vs) <= hlen (array_items (ty_of ch) vs)).
-      { apply hlen_array_ge. intros v Hv. destruct (dynamic (ty_of ch)) eqn:Ed; [lia|].
-        unfold good in Hg. cbn [tc_consistent ty_of wf_ty] in Hg. rewrite !andb_true_iff in Hg.
-        destruct Hg as [[[Hc Hw'] _] _].
-        apply (occ_min ch Hc Hw' Eo v); [|exact Ed].
-        rewrite forallb_forall in Hwt. apply Hwt. exact Hv. }
-      lia. }
-    rewrite Hguard.
-    rewrite loop_elems_nat, loop_nat_list, Nat2Z.id.
-    rewrite (walk_list_ok block _ _ _ Hok (hs + o + 32) (hs + o + 32) (hlen (array_items (ty_of ch) vs)));
-      [reflexivity|apply hlen_nonneg|lia|exact Hh|exact Ht].
-  - (* tuples *)
-    pose proof (good_tuple _ _ Hg) as Hgl. pose proof (good_isDynamic _ Hg) as Hdyn.
-    intros v Hwt [Hsz Hcnt].
-    cbn [ty_of] in *. destruct v as [| |vs]; try (cbn [well_typed] in Hwt; discriminate).
-    rewrite well_typed_tuple in Hwt. rewrite enc_tuple in *. rewrite cv_of_tuple.
-    destruct (counts_list _ Hcnt) as [_ Hcs].
-    pose proof (all_ok_tuple block l IH Hgl vs Hwt (items_bound _ Hsz) Hcs) as Hok.
-    destruct (dynamic (TTuple (map ty_of l))) eqn:Ed; cbn [elem_ok].
-    + intros hs hp o Ho Hw He. rewrite dec_tuple_unfold. cbv zeta. rewrite Hdyn.
-      rewrite (decodeABILength_word _ _ _ Hw Ho). cbn [bind].
-      rewrite walk_children_list.
-      destruct (embedded_head_tail _ _ _ He) as [Hh Ht].
-      rewrite head_tail_length in Hsz.
-      rewrite (walk_list_ok block _ _ _ Hok (hs + o) (hs + o) (hlen (tuple_items (map ty_of l) vs)));
-        [reflexivity|apply hlen_nonneg|lia|exact Hh|exact Ht].
-    + intros hs hp He. rewrite dec_tuple_unfold. cbv zeta. rewrite Hdyn. cbn [bind].
-      rewrite walk_children_list.
-      cbn [dynamic] in Ed.
-      pose proof (tuple_static_all (map ty_of l) vs Ed) as Hst.
-      rewrite head_tail_static in He by exact Hst.
-      rewrite (walk_list_static block _ _ _ Hok Hst hs hp He). cbn [bind].
-      rewrite head_tail_length, (tails_static_tlen _ Hst), Z.add_0_r. reflexivity.
-Qed.
+  Show.
